@@ -1,6 +1,6 @@
 (** Lemmas about the egress model (Model/Egress.v). *)
 From Coq Require Import String Ascii List Bool NArith ZArith Arith Lia.
-From HK Require Import Model.IpClass Model.IpSpec Model.Egress Proofs.IpClassProofs.
+From HK Require Import Model.StrUtil Model.IpClass Model.IpSpec Model.Egress Proofs.IpClassProofs.
 Import ListNotations.
 Local Open Scope string_scope.
 
